@@ -4,7 +4,7 @@ claim("C15",
       "Bounds: list length <= 3 (4 thorough), one command per step (induction over the stored value), elements are opaque strings compared by equality; stubs listed in the evidence; tidwall/resp modelled by a strict RESP parser.",
       "DESIGN.md C15")
 claim("C01",
-      "SET (NX/XX/GET), GET, MSET, MGET, DEL, INCR/DECR/INCRBY/DECRBY (incl. int64 overflow), RENAME (incl. onto itself), GETDEL, TYPE, FLUSHDB, STRLEN and APPEND are executed symbolically through the real dispatcher from an arbitrary pre-state of the keys they name and compared, reply and post-state, with a reference typed map; failed commands must leave the pre-state untouched; replies are decoded by a strict RESP parser so that CR/LF in stored values is covered.",
+      "SET (NX/XX/GET), GET, MSET, MGET, DEL, INCR/DECR/INCRBY/DECRBY (incl. int64 overflow), RENAME (incl. onto itself), GETDEL, TYPE, FLUSHDB, STRLEN and APPEND are executed symbolically through the real dispatcher from an arbitrary pre-state of the keys they name and compared, reply and post-state, with a reference typed map; failed commands must leave the pre-state untouched; replies are decoded by a strict RESP parser so that CR/LF in stored values is covered; integers wider than a double's 53 significant bits written by SET/MSET are stored exactly (concrete wide literals).",
       "Bounds: 1..2 stored keys + 1 fresh key, values are opaque strings / 64-bit integers / one-element lists, one command per step (inductive over the dataset). Known findings (KNOWN_FINDINGS.json): numeric-looking strings are re-typed by AdaptType; GET on a list does not fail.",
       "DESIGN.md C01")
 claim("C14",
@@ -13,17 +13,17 @@ claim("C14",
       "DESIGN.md C14-C17")
 
 claim("C16",
-      "All 16 set commands are executed symbolically through the real dispatcher from arbitrary operand sets (or absent / wrong-typed keys) and compared with reference finite sets: membership changes and their counts, algebra over two operands including destination == source, operand purity, no sharing of the stored set object between destination and source, sizes/subset/distinctness of random selections with symbolic random draws; replies are decoded strictly (an unterminated empty array is a violation).",
-      "Bounds: sets of <= 2 members (3 thorough), two operand keys, one command per step. See evidence assumptions.",
+      "All 16 set commands are executed symbolically through the real dispatcher from arbitrary operand sets (or absent / wrong-typed keys) and compared with reference finite sets: membership changes and their counts, algebra over two operands including destination == source and over three operands with members shared between any of them (stored cardinality compared), operand purity, no sharing of the stored set object between destination and source, sizes/subset/distinctness of random selections with symbolic random draws; replies are decoded strictly (an unterminated empty array is a violation).",
+      "Bounds: sets of <= 2 members (3 thorough), two or three operand keys, one command per step. See evidence assumptions.",
       "DESIGN.md C14-C17")
 
 claim("C17",
-      "All 25 sorted-set commands are executed symbolically through the real dispatcher from arbitrary sorted sets (scores are symbolic IEEE doubles incl. infinities and ties) and compared, reply and post-state, with a reference map member -> score ordered by (score, member): ZADD (every NX/XX/GT/LT/CH combination, two pairs, INCR), ZINCRBY, ZCARD, ZSCORE, ZMSCORE, ZREM, ZCOUNT, ZLEXCOUNT, ZRANK/ZREVRANK, ZPOPMIN/ZPOPMAX, ZMPOP, ZREMRANGEBYSCORE/BYRANK/BYLEX, ZRANGE and ZRANGESTORE (BYSCORE, BYLEX, REV, LIMIT, WITHSCORES), ZUNION/ZINTER/ZDIFF and their STORE forms with WEIGHTS and AGGREGATE (operands untouched, destination replaced and never sharing a source's object), ZRANDMEMBER; a wrong-typed key must make the command fail and stay unchanged.",
+      "All 25 sorted-set commands are executed symbolically through the real dispatcher from arbitrary sorted sets (scores are symbolic IEEE doubles incl. infinities and ties) and compared, reply and post-state, with a reference map member -> score ordered by (score, member): ZADD (every NX/XX/GT/LT/CH combination, two pairs, INCR), ZINCRBY, ZCARD, ZSCORE, ZMSCORE, ZREM, ZCOUNT, ZLEXCOUNT, ZRANK/ZREVRANK, ZPOPMIN/ZPOPMAX, ZMPOP, ZREMRANGEBYSCORE/BYRANK/BYLEX, ZRANGE and ZRANGESTORE (BYSCORE, BYLEX, REV, LIMIT, WITHSCORES), ZUNION/ZINTER/ZDIFF and their STORE forms with WEIGHTS and AGGREGATE (operands untouched, destination replaced and never sharing a source's object), ZRANDMEMBER; the algebra also over one and over three operands; a refused score update (infinite, non-numeric operands) leaves the set unchanged and never stores NaN; a wrong-typed key must make the command fail and stay unchanged.",
       "Bounds: sorted sets of <= 2 members (3 thorough), two operand keys, bounds/weights/limits from small menus, one command per step; conventions the repository documents and pins (LIMIT window over the whole set, plain BYLEX bounds) are taken as given. Known finding: ZADD without CH counts changed members (pinned by the repository's tests). Outside the claim: see bounds/C17.txt.",
       "DESIGN.md C14-C17")
 
 claim("C04",
-      "Server clock and deadlines are symbolic instants: for every observer (GET MGET TYPE TTL PTTL EXPIRETIME PEXPIRETIME STRLEN GETDEL LLEN HLEN SCARD ZCARD, SET NX/XX, LPUSHX) a key is served unchanged up to its deadline and reads as absent after it with no background expiry having run; a value written after expiry does not inherit the deadline; the EXPIRE family option table, PERSIST, and the rules by which SET/MSET/APPEND/RENAME/GETEX move a live deadline are checked against the documented semantics; one run of the background expiry cycle with symbolic random draws removes only expired keys, terminates, and keeps the volatile-key index consistent.",
+      "Server clock and deadlines are symbolic instants: for every observer (GET MGET TYPE TTL PTTL EXPIRETIME PEXPIRETIME STRLEN GETDEL LLEN HLEN SCARD ZCARD, SET NX/XX, LPUSHX) a key is served unchanged up to its deadline and reads as absent after it with no background expiry having run; a value written after expiry does not inherit the deadline; the EXPIRE family option table, PERSIST, and the rules by which SET/MSET/APPEND/RENAME/GETEX move a live deadline are checked against the documented semantics; one run of the background expiry cycle with symbolic random draws removes only expired keys, terminates, and keeps the volatile-key index consistent; the expired-key filter applied by snapshots, the log preamble and raft snapshots removes exactly the entries whose own deadline has passed, database by database.",
       "Bounds and the time model (nanosecond count with exact ms/s factorisation, range 2001..2096) are listed in the evidence assumptions; the real clock.Clock seam is implemented by the harness.",
       "DESIGN.md C04")
 
@@ -33,7 +33,7 @@ claim("C19",
       "DESIGN.md C19")
 
 claim("C13",
-      "The command list is read from the real command table: every data command is run symbolically with generic argument shapes on two keys of arbitrary type; for every read-only command, and for every invocation that returns an error, both keys must be deep-equal to their pre-state and no key may appear or disappear; STORE commands are checked for object identity with their sources and by a follow-up write to the destination.",
+      "The command list is read from the real command table: every data command is run symbolically with generic argument shapes on two keys of arbitrary type; for every read-only command, and for every invocation that returns an error, both keys must be deep-equal to their pre-state and no key may appear or disappear; STORE commands are checked for object identity with their sources and by a follow-up write to the destination; refused numeric and score updates (counters, hash fields, sorted-set scores incl. infinities) and a refused MSET change nothing.",
       "Bounds in the evidence assumptions. Known finding: ZUNIONSTORE with a destination spelled like the command word panics (argument removal hack pinned by the repository's tests).",
       "DESIGN.md C13")
 
@@ -73,7 +73,7 @@ claim("C02",
       "DESIGN.md C02")
 
 claim("C05",
-      "Two real commands run as two threads of a cooperative scheduler through the whole of handleCommand; every interleaving of their keyspace calls (scheduling point in front of each keysExist/getValues/getExpiry/setValues/setExpiry/deleteKey, schedule choices are solver-named inputs) must give replies and a final dataset equal to one of the two serial orders, which the same real code computes on fresh servers. Covers symbolic-operand pairs (INCR, APPEND, LPUSH/RPUSH, SET NX, SADD/SREM, HSET/HDEL, GETDEL/SET), a pair matrix over the string/list/hash/set/sorted-set families plus the generic commands, all-or-nothing MSET under a symbolic memory limit in every write order, and lock-order freedom: 12 entry points that take several of the server's locks, pairwise, pre-empted at mutex acquisitions with real mutex/RWMutex exclusion modelled, deadlock and busy-wait livelock reported.",
+      "Two real commands run as two threads of a cooperative scheduler through the whole of handleCommand; every interleaving of their keyspace calls (scheduling point in front of each keysExist/getValues/getExpiry/setValues/setExpiry/deleteKey, schedule choices are solver-named inputs) must give replies and a final dataset equal to one of the two serial orders, which the same real code computes on fresh servers. Covers symbolic-operand pairs (INCR, APPEND, LPUSH/RPUSH, SET NX, SADD/SREM, HSET/HDEL, GETDEL/SET), a pair matrix over the string/list/hash/set/sorted-set families plus the generic commands, all-or-nothing MSET under a symbolic memory limit in every write order, a reader meeting an expired uncollected entry while another client rewrites the key (the goroutines the reader starts are threads of the schedule), the background expiry pass against a write, two TCP clients on different databases, and lock-order freedom: 12 entry points that take several of the server's locks, pairwise, pre-empted at mutex acquisitions with real mutex/RWMutex exclusion modelled, deadlock and busy-wait livelock reported.",
       "Two threads; data races inside one keyspace call and below (map/slice races under the race detector) are outside the model; pre-emption at locks is context-bounded; native confirmation of a deadlock is a free-running stress (timeout = hang). Bounds in the evidence assumptions.",
       "DESIGN.md C05")
 
